@@ -19,6 +19,18 @@ pub(crate) struct Env {
     pub(crate) env_p: *const *const u8,
 }
 
+/// Verification hook H2: point the process-global start-up data at caller-supplied
+/// `argc`/`argv`/`envp` blocks, as the entry point does once at start.
+/// # Safety
+/// The blocks must be laid out as the kernel lays them out (null-terminated pointer
+/// arrays of null-terminated strings) and must stay alive while they're installed.
+#[cfg(feature = "verif-hooks")]
+pub unsafe fn verif_set_env(arg_c: u64, arg_v: *const *const u8, env_p: *const *const u8) {
+    ENV.arg_c = arg_c;
+    ENV.arg_v = arg_v;
+    ENV.env_p = env_p;
+}
+
 #[derive(Debug, Copy, Clone)]
 pub enum VarError {
     Missing,
